@@ -116,7 +116,7 @@ impl<'a> Gen<'a> {
     pub fn letter(&mut self, which: u64) -> (String, String) {
         let sid = self.share;
         match which {
-            0 => { let caps = caps_sample(self.r); if self.r.chance(1, 2) { self.share = self.r.next() as u32; } let sid = self.share; (format!("R{}", hex(&refsrv::demand_active(sid, b"RDP\0", &caps))), "DA".into()) }
+            0 => { let caps = caps_sample(self.r); if self.r.chance(1, 2) { self.share = if self.r.chance(1, 6) { *self.r.pick(&[0u32, 0xffff_ffff, 1, 0x0001_0000]) } else { self.r.next() as u32 }; } let sid = self.share; (format!("R{}", hex(&refsrv::demand_active(sid, b"RDP\0", &caps))), "DA".into()) }
             1 => (format!("R{}", hex(&refsrv::synchronize(sid, 1002))), "SY".into()),
             2 => (format!("R{}", hex(&refsrv::control(sid, 4, 0, 0))), "CO".into()),
             3 => (format!("R{}", hex(&refsrv::control(sid, 2, 0x3ec, 0x3ea))), "GR".into()),
